@@ -44,6 +44,10 @@ C['C12'] = dict(level=MC, engine='E2+E1', design='§2 C12',
    technique='symbolic execution of the real Equation/Term code with symbolic coefficients (z3 reals rendered as placeholders), per-path SMT post-condition; SMT equivalence for create_equation_from_terms',
    text='Inductive step: an Equation with an optional opaque lead and up to 2 (quick) / 3 (thorough) merged terms whose coefficients are symbolic reals is rendered, one real AddTerm(t) is executed for every t of a signed/bracketed/product/quotient alphabet, and on every path z3 shows value(after) == value(before) + value(t) for all coefficients and valuations; create_equation_from_terms is checked on all lists of length <=3 over an alphabet with interior + signs (sum preserved, argument unchanged).',
    note='Trusted: SymCoef duck class (renders as placeholder; sign decided by the path condition), DFS driver, translator. Divisor names assumed non-zero.')
+C['C06'] = dict(level=MC, engine='E2+E1', design='§2 C06',
+   technique='symbolic execution of the real Sector.AddCashFlow with symbolic ledger coefficients (inductive step), per-path SMT post-conditions; SMT normal-form equivalence on enumerated call histories and RegisterCashFlow sequences through Model.main()',
+   text='Inductive step: a sector whose F or INC equation carries terms with symbolic real coefficients (any accumulated multiplicity), with exclusion sets and every status of the flow variable, takes one real AddCashFlow(term, eqn, desc, is_income) for each term of a signed/bracketed/product alphabet; on every path z3 shows F after == F before + flow, INC after == INC before + [income and not excluded] flow, and the definition rule for the flow variable. Concrete histories (<=3 calls) and RegisterCashFlow sequences through main() are checked by z3 normal-form equivalence against the harness-side signed sums.',
+   note="Don't-care: prior definition '0.' (zero literal not rendered as 0.0). Exclusion oracle: unsigned, bracket-stripped flow text equals an excluded name.")
 PENDING = {}
 ALL = ['C%02d' % i for i in range(1, 21)]
 checks = []
